@@ -763,43 +763,49 @@ impl<K: CacheKey + 'static> AsyncCache<K> for MultiLayerCacheImpl<K> {
                     // Found in this layer
                     self.layer_hits[layer_index].fetch_add(1, Ordering::Relaxed);
 
-                    // Update promotion tracking
-                    if let Ok(mut tracker) = self.promotion_tracker.write() {
+                    // Update promotion tracking. The write guard is released before
+                    // `should_promote` runs: that function takes the tracker's read
+                    // lock, and `std::sync::RwLock` is not re-entrant.
+                    let already_tracked = if let Ok(mut tracker) = self.promotion_tracker.write() {
                         if let Some(entry_tracker) = tracker.get_mut(key) {
                             entry_tracker.update_access();
-
-                            // Check for promotion opportunity
-                            if self.should_promote(key, layer_index) {
-                                // DESIGN DECISION: Cache promotion is deferred
-                                //
-                                // Background promotion from L2 (disk) to L1 (memory) is not implemented
-                                // to avoid complexity:
-                                //
-                                // Option 1: Arc<Self> with tokio::spawn
-                                //   - Would require changing the struct to be Arc-wrapped at construction
-                                //   - All internal methods would need Arc<Self> instead of &self
-                                //   - Significant refactoring across the crate
-                                //
-                                // Option 2: Background task queue (mpsc channel)
-                                //   - Cleaner separation but adds channel overhead
-                                //   - Requires a separate background task to process promotions
-                                //   - Queue could fill up during high load
-                                //
-                                // Option 3: Synchronous promotion (call promote_entry here)
-                                //   - Adds latency to cache hits
-                                //   - Could cause cascading delays
-                                //   - Not suitable for hot path
-                                //
-                                // Current behavior: Tracking is updated but promotion is skipped.
-                                // Entries remain in L2 until natural eviction or explicit put to L1.
-                                // This is acceptable for CASC file caching where read patterns are
-                                // typically sequential (one-time access) rather than hot-spot based.
-                                let _ = layer_index; // Silence unused warning
-                            }
+                            true
                         } else {
                             // First access - start tracking
                             tracker.insert(key.clone(), PromotionTracker::new(layer_index));
+                            false
                         }
+                    } else {
+                        false
+                    };
+
+                    // Check for promotion opportunity
+                    if already_tracked && self.should_promote(key, layer_index) {
+                        // DESIGN DECISION: Cache promotion is deferred
+                        //
+                        // Background promotion from L2 (disk) to L1 (memory) is not implemented
+                        // to avoid complexity:
+                        //
+                        // Option 1: Arc<Self> with tokio::spawn
+                        //   - Would require changing the struct to be Arc-wrapped at construction
+                        //   - All internal methods would need Arc<Self> instead of &self
+                        //   - Significant refactoring across the crate
+                        //
+                        // Option 2: Background task queue (mpsc channel)
+                        //   - Cleaner separation but adds channel overhead
+                        //   - Requires a separate background task to process promotions
+                        //   - Queue could fill up during high load
+                        //
+                        // Option 3: Synchronous promotion (call promote_entry here)
+                        //   - Adds latency to cache hits
+                        //   - Could cause cascading delays
+                        //   - Not suitable for hot path
+                        //
+                        // Current behavior: Tracking is updated but promotion is skipped.
+                        // Entries remain in L2 until natural eviction or explicit put to L1.
+                        // This is acceptable for CASC file caching where read patterns are
+                        // typically sequential (one-time access) rather than hot-spot based.
+                        let _ = layer_index; // Silence unused warning
                     }
 
                     self.metrics.record_get(true, start_time.elapsed());
